@@ -11,7 +11,8 @@ base-class chain is closed):
   dict literal, `.update({...})`, `d[k] = …`, `del d[k]`) — every dumped value must be the PLAIN attribute read
   `self.k` / `self._k` (anything computed from it, `np.round(self.bounds, 3)`, `self.id.lower()`, is `.unknown`); the one
   accepted replacement of a dumped value is ADevice's `if 'constraints' in d: d['constraints'] = self._constraints`;
-  own `@property` / `@x.setter` names;
+  own `@property` / `@x.setter` names; own `from_dict`, which must be the classmethod `return cls(**d)` — any filtering,
+  sorting, capping or editing of the dictionary is `.other "<file:line: source>"` and fails `from_dict_is_ctor`;
 * from the imported class: `inspect.signature(cls)`, the MRO, `inspect.isabstract`, and the run-time
   property/setter sets (cross-checked against the AST here; the signature cross-check is a Lean theorem).
 
@@ -223,8 +224,25 @@ def _is_abstract_stub(fdef):
   return any(ast.unparse(d) in ('abstractmethod', 'abc.abstractmethod') for d in fdef.decorator_list)
 
 
+def from_dict_info(fdef, decs, fn):
+  """`from_dict` must be the classmethod `return cls(**d)` and nothing else (a doc-string apart): any filtering,
+  sorting, renaming, capping or copying-and-editing of the dictionary is outside the understood subset."""
+  a = fdef.args
+  names = [x.arg for x in a.args]
+  body = [st for st in fdef.body if not (isinstance(st, ast.Expr) and isinstance(st.value, ast.Constant) and isinstance(st.value.value, str))]
+  ok = ('classmethod' in decs and len(decs) == 1 and len(names) == 2 and not (a.vararg or a.kwarg or a.kwonlyargs or a.posonlyargs or a.defaults)
+        and len(body) == 1 and isinstance(body[0], ast.Return) and isinstance(body[0].value, ast.Call)
+        and isinstance(body[0].value.func, ast.Name) and body[0].value.func.id == names[0] and not body[0].value.args
+        and len(body[0].value.keywords) == 1 and body[0].value.keywords[0].arg is None
+        and isinstance(body[0].value.keywords[0].value, ast.Name) and body[0].value.keywords[0].value.id == names[1])
+  if ok:
+    return ('ctorOfDict',)
+  bad = next((st for st in body if not (isinstance(st, ast.Return) and ast.unparse(st) == 'return %s(**%s)' % tuple((names + ['?', '?'])[:2]))), fdef)
+  return ('other', _src(bad, fn))
+
+
 def class_ast(cdef, fn):
-  init = dump = None
+  init = dump = fromd = None
   props, setters = [], []
   for st in cdef.body:
     if not isinstance(st, ast.FunctionDef):
@@ -234,12 +252,14 @@ def class_ast(cdef, fn):
       init = init_info(st, fn)
     elif st.name == 'to_dict' and not _is_abstract_stub(st):
       dump = dump_info(st, fn, cdef.name)
+    elif st.name == 'from_dict':
+      fromd = from_dict_info(st, decs, fn)
     if 'property' in decs and st.name not in props:
       props.append(st.name)
     for d in decs:
       if d.endswith('.setter') and d[:-7] == st.name and st.name not in setters:
         setters.append(st.name)
-  return {'init': init, 'dump': dump, 'props': props, 'setters': setters,
+  return {'init': init, 'dump': dump, 'from_dict': fromd, 'props': props, 'setters': setters,
           'ast_bases': [ast.unparse(b).split('.')[-1] for b in cdef.bases]}
 
 
@@ -289,6 +309,8 @@ def extract(repo):
     has_td = 'to_dict' in vars(cls) and not getattr(vars(cls)['to_dict'], '__isabstractmethod__', False)
     if has_td != (a['dump'] is not None):
       problems.append('%s: own to_dict seen by AST=%s, at run time=%s' % (cls.__name__, a['dump'] is not None, has_td))
+    if ('from_dict' in vars(cls)) != (a['from_dict'] is not None):
+      problems.append('%s: own from_dict seen by AST=%s, at run time=%s' % (cls.__name__, a['from_dict'] is not None, 'from_dict' in vars(cls)))
     # run-time signature
     sig_params, sig_varkw, sig_bad = [], None, None
     try:
@@ -305,7 +327,7 @@ def extract(repo):
       problems.append('%s: signature has an unsupported parameter (%s)' % (cls.__name__, sig_bad))
       sig_params.append(('<unsupported>', False))
     recs.append({'name': cls.__name__, 'where': where + ':%d' % cdefs[0].lineno, 'bases': [b.__name__ for b in mro],
-                 'abstract': bool(inspect.isabstract(cls)), 'init': a['init'], 'dump': a['dump'], 'props': a['props'],
+                 'abstract': bool(inspect.isabstract(cls)), 'init': a['init'], 'dump': a['dump'], 'from_dict': a['from_dict'], 'props': a['props'],
                  'setters': a['setters'], 'sig_params': sig_params, 'sig_varkw': sig_varkw})
   for n in SHIPPED:
     if n not in found:
@@ -372,6 +394,8 @@ def emit(recs, problems):
       out.append('    dump := none,')
     else:
       out.append('    dump := some [' + (',\n                  '.join(ldump_op(o) for o in r['dump'])) + '],')
+    fd = r.get('from_dict')
+    out.append('    fromDict := %s,' % ('none' if fd is None else '(some .ctorOfDict)' if fd[0] == 'ctorOfDict' else '(some (.other %s))' % ls(fd[1])))
     out.append('    props := %s,' % lstrs(r['props']))
     out.append('    setters := %s,' % lstrs(r['setters']))
     out.append('    sigParams := %s, sigVarkw := %s }' % (lparams(r['sig_params']), lopt(r['sig_varkw'])))
@@ -485,6 +509,11 @@ def diagnose(recs):
       _, st = dumped(r, allk + ['§kw'])
       if '§kw' not in st['attrs']:
         msgs.append('%s: a key passed through **%s is never assigned on the instance' % (r['name'], varkw))
+  for r in recs:
+    if not r['abstract']:
+      fd = next((c['from_dict'] for c in mro(r) if c.get('from_dict') is not None), None)
+      if fd is None or fd[0] != 'ctorOfDict':
+        msgs.append('%s: from_dict is not `return cls(**d)`%s' % (r['name'], '' if fd is None else ' (' + fd[1] + ')'))
   seen = []
   for m in msgs:
     if m not in seen:
@@ -524,6 +553,8 @@ def extract_isolated(repo):
       rec['init']['ops'] = [tuple(x) for x in rec['init']['ops']]
     if rec['dump'] is not None:
       rec['dump'] = [tuple(x) for x in rec['dump']]
+    if rec.get('from_dict') is not None:
+      rec['from_dict'] = tuple(rec['from_dict'])
   return recs, d['problems']
 
 
@@ -535,6 +566,8 @@ def not_understood(recs):
       if o[0] == 'unknown': out.append('%s.__init__ @ %s' % (r['name'], o[1]))
     for o in (r['dump'] or []):
       if o[0] == 'unknown': out.append('%s.to_dict @ %s' % (r['name'], o[1]))
+    if r.get('from_dict') is not None and r['from_dict'][0] == 'other':
+      out.append('%s.from_dict @ %s' % (r['name'], r['from_dict'][1]))
   return out
 
 
